@@ -34,7 +34,7 @@ def expected(cfg, base, got_col, s0=0, xs=None):
     """-> dict(fields={field: [exp]}, warm={field: (E, L)}, kind=...). xs overrides the input series (C04 fabricated/chained)."""
     cls, kw = cfg["cls"], cfg["kw"]
     r = kw.get("round_value", 4)
-    H = min(4, r)
+    H = max(4, r)  # helper series are kept at the finer of 4 decimals and the indicator's own round_value
     n = len(base)
     h, l, c, v = series(base, "high"), series(base, "low"), series(base, "close"), series(base, "volume")
     iv = kw.get("input_value", "close")
@@ -221,7 +221,7 @@ def check_supertrend(cfg, base, col, stats):
     r = kw.get("round_value", 4)
     p = kw.get("period", 7)
     h, l, c = series(base, "high"), series(base, "low"), series(base, "close")
-    ref = R.SupertrendRef(h, l, c, p, kw.get("multiplier", 3.0), r, min(4, r))
+    ref = R.SupertrendRef(h, l, c, p, kw.get("multiplier", 3.0), r, max(4, r))
     level = level_of(cfg, base)
     comp = 0
     for i, g in enumerate(col):
@@ -235,7 +235,7 @@ def check_supertrend(cfg, base, col, stats):
         if g.get("trend") is None:
             if i >= p:
                 return {"kind": "warm-up-late", "detail": f"candle {i}: trend None although ATR_{p} exists ({ref.atr[i]}); documented warm-up index {p}"}, comp, 0
-            ref.pu = ref.pl = None  # implementation has not started: restart the reference with it
+            ref.restart()  # implementation has not started: restart the reference with it
             continue
         if g.get("direction") != exp["direction"]:
             return {"kind": "value", "detail": f"candle {i}: direction {g.get('direction')} but the definition gives {exp['direction']} (close {c[i]}, prev bands {ref.pu}, {ref.pl})", "field": "direction"}, comp, 0
